@@ -85,3 +85,5 @@ pub fn workers() -> Vec<(&'static str, WorkerFn)> {
 
 /// Part of the C19 engine (path confinement), driven from `c19::run`.
 pub mod c19_confine;
+/// Part of the C19 engine (multi-step histories), driven from `c19::run`.
+pub mod c19_hist;
